@@ -301,6 +301,11 @@ func (db *DB) loadIndexFromHintFile() (uint32, error) {
 	if err != nil {
 		return 0, err
 	}
+	// hint 文件仅在加载索引时使用, 加载完成后必须关闭
+	// 否则文件描述符泄漏, mmap 实现下文件还会一直保持扩展后的 512MB 大小
+	defer func() {
+		_ = hintFile.Close()
+	}()
 
 	// 实际读取到的最大数据文件 id
 	// 避免 hint 文件被删除导致无法加载的情况
